@@ -321,12 +321,13 @@ func ZZ_C05(shape int) {
 }
 
 func zzRestart(w *zzWorld) *zzWorld {
-	w2 := &zzWorld{store: w.store, monitor: &zzMonitor{}, ctx: context.Background()}
+	w2 := &zzWorld{store: w.store, monitor: &zzMonitor{}, ctx: context.Background(), restarts: w.restarts + 1}
 	w2.commander = New(w.store, NewDefaultLocker(), NewCompiler(1024), NewReferencer(), w2.monitor)
 	if err := w2.commander.Init(w2.ctx); err != nil {
 		panic(err)
 	}
-	verifhook.Go("runner2", func() { w2.commander.Run(w2.ctx) })
+	// one name per generation (the native schedule controller finds threads by name)
+	verifhook.Go(fmt.Sprintf("runner%d", w2.restarts+1), func() { w2.commander.Run(w2.ctx) })
 	return w2
 }
 
@@ -401,7 +402,10 @@ func ZZ_C06(shape int) {
 		verifhook.Assert(known, "C06 a log entry exists that no request produced")
 	}
 	if fault && w.store.failedIns > 0 {
-		for _, r := range res {
+		for i, r := range res {
+			if ops[i].DryRun {
+				continue // a preview is answered without any log entry
+			}
 			verifhook.Assert(!(r.returned && r.err == nil && !r.ownLogAtAck), "C06 acknowledged although InsertLogs failed")
 		}
 	}
